@@ -37,4 +37,10 @@ def check(model, tier):
     expressions.r13_4_required_columns(ctx, rule="R20.4")
     commute.r04_4_set_formulas(ctx, rule="R20.5")
     run.assume("no relation is mutated by a rejected call: follows from C09 (no in-place mutation anywhere)")
+    from ..rules import classlevel as _classlevel
+
+    _classlevel.r_commutator_messages(ctx, "R20.M1")
+    from ..rules.foundation import run_foundation
+
+    run_foundation(ctx, "20")
     return run
